@@ -291,6 +291,27 @@ def deferred(chk, F, T, rid="R-DEFER"):
     from .scopes import entry_restores
     entries = [f for f in F.fns("parse_XTA") if any(c.get("k") == "call" and c.get("name") == "utap_parse" for c in walk(f["body"]))]
     drops = bool(entries) and all(entry_restores(F, f, "fragments") is not None for f in entries)
+    # ... where `fails` includes the texts the grammar recovers in (`(3 + )`: utap_parse() returns 0, but the error
+    # production and the abandoned operand are both on the stack): the verdict of the entry point consults the parser's
+    # error count next to the result of utap_parse()
+    def counts_errors(f):
+        for n in walk(f["body"]):
+            c = n.get("c") if n.get("k") == "if" else (n.get("init") if n.get("k") == "var" else None)
+            cands = [n["c"]] if n.get("k") == "if" else []
+            if n.get("k") == "decl":
+                cands += [v["init"] for v in n.get("vars", []) if v.get("init") is not None]
+            for c in cands:
+                if any(x.get("k") == "call" and x.get("name") == "utap_parse" for x in walk(c)) and \
+                        any(x.get("k") == "ref" and x.get("name") in ("utap_nerrs", "yynerrs") for x in walk(c)):
+                    return True
+        return False
+    recovered = bool(entries) and all(counts_errors(f) for f in entries)
+    if not ok and drops and not recovered:
+        chk.ob(rid, "location|proc_location|recovered-error", False,
+               "a label whose syntax error the grammar recovers from (rate `(3 + )`) is parsed to the end: utap_parse() returns "
+               "0, the entry point does not count it as failed and keeps what it left on the operand stack - the error "
+               "production's `false` and the abandoned operand `3`, which proc_location pops as the invariant", where)
+        return
     if not ok and drops:
         chk.ob(rid, "location|proc_location|single-parse", True, "", where,
                sample="several label parses precede proc_location, but a parse that fails drops its operands "
